@@ -9,7 +9,8 @@ Definition noref_rule : rule :=
      r_ok := KRef; r_ov := u "id"; r_ott := TLit; r_ld := LDNone; r_ldk := KNone; r_ldv := []; r_gk := KConst;
      r_gv := u "http://w3id.org/rml/defaultGraph"; r_sjoin := []; r_ojoin := [] |}.
 Definition noref_data (key : ustr) (refs : list ustr) : result frame := Ok [[(u "id", u "1")]; [(u "id", u "2")]].
+Definition nofe : fenv := {| fn_params := fun _ => None; fn_apply := fun _ _ => FNull; fn_table := [] |}.
 Definition ncfg : ecfg := {| c_nquads := false; c_printable := false; c_safe := []; c_na := [[]] |}.
 Lemma noref_template_refuted :
-  (exists l, materialize_rules ncfg [noref_rule] noref_data = Ok l /\ length l = 2%nat) /\ pa_labels [noref_rule] = None.
+  (exists l, materialize_rules ncfg nofe [noref_rule] noref_data = Ok l /\ length l = 2%nat) /\ pa_labels [noref_rule] = None.
 Proof. split; [eexists; split; vm_compute; reflexivity|vm_compute; reflexivity]. Qed.
